@@ -57,6 +57,11 @@ fn gen_value(k1: &str, k2: &str, rng: &mut Rng) -> String {
       let mut pool: Vec<f64> = vec![0.0, 0.5, -0.5, 3.99, -3.99, 127.5, 128.0, -128.5, -129.0, 255.9, 256.0, 32767.5, -32768.5, 65535.5, 65536.0,
         2147483647.5, -2147483649.0, 4294967296.0, 9007199254740992.0, -9007199254740992.0, 1e19, -1e19, 3e38, 1.0, 2.0, -7.0, 0.25, 100.0, 0.1, 16777217.0];
       if k2 == "string" || k2 == "r64" { pool = vec![0.0, 5.0, -5.0, 5.5, -0.25, 100.0, 3.0625, 1024.0, 0.5]; }
+      // 64- and 128-bit targets: values around 2^63, 2^64, 2^127 and 2^128, where a detour through a narrower kind shows
+      if k2 == "u128" || k2 == "i128" || k2 == "u64" || k2 == "i64" {
+        pool = vec![9223372036854775808.0, 18446744073709551616.0, 36893488147419103232.0, 1e30, -1e30, 1.7014118346046923e38, -1.7014118346046923e38, 3.4e38, 3.5e38, -3.5e38, 1e19, -9.3e18, 0.5, -3.99, 4294967296.5];
+        if k1 == "f32" { pool = vec![9223372036854775808.0, 18446744073709551616.0, 1e30, -1e30, 1.7014118346046923e38, 3.0e38, -3.0e38, 0.5, -3.99]; }
+      }
       let x = *rng.pick(&pool);
       if k1 == "f64" { format!("{:016x}", x.to_bits()) } else { format!("{:08x}", (x as f32).to_bits()) }
     }
@@ -87,6 +92,11 @@ pub fn generate(seed: u64, thorough: bool, sink: &mut Sink) -> Vec<String> {
       cases.push(format!("convopt\t{}\t{}\tS|{}", k1, k2, gen_value(k1, k2, &mut rng))); sink.hit("conv:option-target");
     }
   }}
+  for k1 in ["f64", "f32"] { for k2 in ["u128", "i128", "u64", "i64"] { for _ in 0..(if thorough { 12 } else { 4 }) {
+    cases.push(format!("convopt\t{}\t{}\tS|{}", k1, k2, gen_value(k1, k2, &mut rng))); sink.hit("conv:option-target-wide");
+    let els: Vec<String> = (0..3).map(|_| gen_value(k1, k2, &mut rng)).collect();
+    cases.push(format!("toset2\t{}\t{}\tM|1|3|{}", k1, k2, els.join(" "))); sink.hit("toset:wide-kind");
+  } } }
   for k2 in &kinds_all { cases.push(format!("optempty\t{}", k2)); sink.hit("conv:empty-option"); }
   // reshapes: every (r,c) -> (r',c') with at most 16 elements (equal and unequal counts)
   let mut shapes = vec![];
